@@ -47,7 +47,7 @@ ASSUMPTIONS = [
 ALL_CFGS = list(range(20))
 ZOO = {
     1: dict(profiles=["general", "guards", "serial"], quick=720000, thorough=8640000, fs=["ALL", "MIN"]),
-    2: dict(profiles=["general", "guards"], quick=720000, thorough=8640000, fs=["ALL", "MIN"]),
+    2: dict(profiles=["general", "guards", "serial"], quick=720000, thorough=8640000, fs=["ALL", "MIN"]),
     3: dict(profiles=["guards", "general"], quick=720000, thorough=8640000, fs=["ALL", "MIN"]),
     4: dict(profiles=["guards"], quick=600000, thorough=7200000, fs=["ALL", "MIN"]),
     5: dict(profiles=["phases", "general"], quick=600000, thorough=7200000, fs=["ALL", "MIN"]),
